@@ -184,6 +184,7 @@ pub fn configs(tier: Tier) -> Vec<InCfg> {
                     app_sends: vec![],
                     skip_connect: false,
                     known: vec![],
+                    bp: 0,
                 });
             }
         }
@@ -206,6 +207,7 @@ pub fn configs(tier: Tier) -> Vec<InCfg> {
             app_sends: vec![],
             skip_connect: false,
             known: vec![],
+            bp: 0,
         });
     }
     // v5 server: SUBSCRIBE / UNSUBSCRIBE being handled do not count against Receive Maximum
@@ -228,6 +230,7 @@ pub fn configs(tier: Tier) -> Vec<InCfg> {
             app_sends: vec![],
             skip_connect: false,
             known: vec![],
+            bp: 0,
         });
     }
     let _ = PVal::Byte(0);
